@@ -99,3 +99,122 @@ Definition p_fut_ok : prog :=
     [[ISpawn 1; IBlockOn 0 1 1; IJoin 1; ITakeWaker 1]; [IStore 0 1 Release; IWake 1]].
 Example C20_woken_future_completes : fin_of p_fut_ok = RunOk.
 Proof. vm_compute. reflexivity. Qed.
+
+(* ==== appended by tools/mkprops.py (APPEND table) ==== *)
+
+Require Import LV.Base LV.VV LV.VVFacts LV.Path LV.PathSpec LV.PathTerm LV.PathDistinct LV.PathApi LV.Prog LV.Objects LV.Exec LV.Atomic LV.Ops LV.Check LV.SyncFacts LV.ExecFacts LV.SyncMono LV.NotifyFacts.
+
+(* No lost wake-up at the level of rt::Notify, which backs block_on's waker (NotifyFacts.v) *)
+(* a pending notification survives every micro-step of every thread except the waiter's consuming step *)
+Theorem C20_notified_persists :
+  forall (e : exec) (me : nat) (m : micro) (e' : exec) (n : nat) (s : notify_state),
+       track_ok e ->
+       get_notify e n = Some s ->
+       nt_notified s = true ->
+       exec_micro e me m = MOk e' ->
+       m <> MNotifyWait2 n ->
+       exists s' : notify_state,
+         get_notify e' n = Some s' /\ nt_notified s' = true /\ vle (nt_sync s) (nt_sync s').
+Proof. exact notified_persists. Qed.
+Print Assumptions C20_notified_persists.
+
+(* GLOBAL: after a wake, whatever happens in between, the waiter's wait does not block, its consuming step succeeds, and its clock then dominates the waker's clock at the wake *)
+Theorem C20_no_lost_wakeup :
+  forall (e : exec) (a n : nat) (e1 e2 : exec) (b : nat) (e3 e4 : exec),
+       track_ok e ->
+       exec_micro e a (MNotifyPost n) = MOk e1 ->
+       steps_without_wait2 n e1 e2 ->
+       exec_micro e2 b (MNotifyWait1 n) = MOk e3 ->
+       steps_without_wait2 n e3 e4 ->
+       exists e5 : exec,
+         exec_micro e4 b (MNotifyWait2 n) = MOk e5 /\
+         (forall (e' : exec) (pn : panic), exec_micro e4 b (MNotifyWait2 n) <> MFail e' pn) /\
+         (b < length (e_threads e4) -> vle (caus_of e a) (caus_of e5 b)).
+Proof. exact no_lost_wakeup. Qed.
+Print Assumptions C20_no_lost_wakeup.
+
+(* all outcomes of entering the wait after a wake: proceed, or the one spurious return *)
+Theorem C20_wake_wait1_not_blocking :
+  forall (e : exec) (a n : nat) (e1 e2 : exec) (b : nat),
+       track_ok e ->
+       exec_micro e a (MNotifyPost n) = MOk e1 ->
+       steps_without_wait2 n e1 e2 ->
+       exists s2 : notify_state,
+         get_notify e2 n = Some s2 /\
+         nt_notified s2 = true /\
+         (nt_spurious s2 && negb (nt_did_spur s2) = false /\
+          exec_micro e2 b (MNotifyWait1 n) =
+          MOk (push_cont e2 b [MBranch n AOpaque BNever; MNotifyWait2 n]) \/
+          nt_spurious s2 && negb (nt_did_spur s2) = true /\
+          ((exists p : path,
+              branch_spurious (e_path e2) = POk (p, false) /\
+              exec_micro e2 b (MNotifyWait1 n) =
+              MOk (push_cont (ex_set_path e2 p) b [MBranch n AOpaque BNever; MNotifyWait2 n])) \/
+           (exists p : path,
+              branch_spurious (e_path e2) = POk (p, true) /\
+              exec_micro e2 b (MNotifyWait1 n) =
+              MOk
+                (push_cont
+                   (upd_object (ex_set_path e2 p) n
+                      (fun _ : object => ONotify (nt_set s2 true true (nt_sync s2)))) b [MYield])) \/
+           (exists x : ppanic,
+              branch_spurious (e_path e2) = PErr x /\
+              exec_micro e2 b (MNotifyWait1 n) = MFail e2 (PanicPath x)))).
+Proof. exact wake_wait1_not_blocking. Qed.
+Print Assumptions C20_wake_wait1_not_blocking.
+
+(* without a notification the waiter blocks (or takes the single spurious return) *)
+Theorem C20_wait1_unnotified_blocks :
+  forall (e : exec) (b n : nat) (s : notify_state) (e3 : exec),
+       get_notify e n = Some s ->
+       nt_notified s = false ->
+       exec_micro e b (MNotifyWait1 n) = MOk e3 ->
+       (exists p : path,
+          (p = e_path e \/ branch_spurious (e_path e) = POk (p, false)) /\
+          e_path e3 = p /\
+          e_objects e3 = e_objects e /\
+          get_thread e3 b =
+          option_map
+            (fun t : thread =>
+             th_set_cont t ([MBranch n AOpaque BAlways; MNotifyWait2 n] ++ t_cont t))
+            (get_thread e b)) \/
+       nt_spurious s = true /\
+       nt_did_spur s = false /\
+       (exists p : path,
+          branch_spurious (e_path e) = POk (p, true) /\
+          e3 =
+          push_cont
+            (upd_object (ex_set_path e p) n
+               (fun _ : object => ONotify (nt_set s true false (nt_sync s)))) b [MYield]).
+Proof. exact wait1_unnotified_blocks. Qed.
+Print Assumptions C20_wait1_unnotified_blocks.
+
+(* and stays blocked until a notify on that object: re-polls happen only after a wake *)
+Theorem C20_unnotified_waiter_blocked_until_post :
+  forall (b n : nat) (e e1 e2 : exec) (s : notify_state),
+       track_ok e ->
+       get_notify e n = Some s ->
+       b < length (e_threads e) ->
+       exec_micro e b (MBranch n AOpaque BAlways) = MOk e1 ->
+       steps_without_post b n e1 e2 ->
+       exists t2 : thread,
+         get_thread e2 b = Some t2 /\ t_state t2 = Blocked /\ pending_on n t2 = true.
+Proof. exact unnotified_waiter_blocked_until_post. Qed.
+Print Assumptions C20_unnotified_waiter_blocked_until_post.
+
+(* the modelled spurious return happens at most once per Notify *)
+Theorem C20_spurious_at_most_once :
+  forall (e : exec) (b n : nat) (s : notify_state) (p : path) (e3 e4 : exec) (b' : nat),
+       track_ok e ->
+       get_notify e n = Some s ->
+       nt_spurious s && negb (nt_did_spur s) = true ->
+       branch_spurious (e_path e) = POk (p, true) ->
+       exec_micro e b (MNotifyWait1 n) = MOk e3 ->
+       any_steps e3 e4 ->
+       exists s4 : notify_state,
+         get_notify e4 n = Some s4 /\
+         nt_did_spur s4 = true /\
+         exec_micro e4 b' (MNotifyWait1 n) = MOk (push_cont e4 b' (wait1_cont n s4)).
+Proof. exact spurious_at_most_once. Qed.
+Print Assumptions C20_spurious_at_most_once.
+
